@@ -5,7 +5,7 @@ text; the (de)serialization assumptions of env/ (serde round trip of the stored 
 of the hook messages) were stated for exactly these attributes, so Unit.item() compares."""
 import json, os, re, sys
 sys.path.insert(0, os.path.dirname(os.path.dirname(os.path.abspath(__file__))))
-from vlib.core import Src, serde_signature
+from vlib.core import Src, serde_signature, shape_signature
 out = {}
 for root, _, fs in os.walk("/repo/src"):
     for f in sorted(fs):
@@ -15,6 +15,6 @@ for root, _, fs in os.walk("/repo/src"):
         s = Src.get(rel)
         for it in s._walk(s.index["items"]):
             if it["kind"] in ("struct", "enum"):
-                out[f"{rel}::{it['qual']}"] = serde_signature(s, it)
+                out[f"{rel}::{it['qual']}"] = {"serde": serde_signature(s, it), "shape": shape_signature(s, it)}
 json.dump(out, open(os.path.join(os.path.dirname(os.path.dirname(os.path.abspath(__file__))), "specs", "attr_baseline.json"), "w"), indent=1, sort_keys=True)
 print(len(out), "items")
